@@ -37,6 +37,9 @@ type World struct {
 
 	Net *Net
 
+	// Admin is the bridge/liquidity administrator when a run installed one
+	Admin *types.Address
+
 	// AckDepth, when set, chooses how many momentums below the frontier a
 	// client block acknowledges (0 = frontier)
 	AckDepth func() int
